@@ -59,11 +59,14 @@ class Struct(object):
 
 
 class Ev(object):
-    __slots__ = ("kind", "arr", "idx", "op", "val", "guards", "qvars", "par", "seq", "fn", "extra")
+    __slots__ = ("kind", "arr", "idx", "op", "val", "guards", "qvars", "par", "seq", "fn", "extra", "phase", "level", "outer", "par_extra")
 
     def __init__(self, kind, arr, idx, op, val, guards, qvars, par, seq, fn, extra=None):
         self.kind, self.arr, self.idx, self.op, self.val = kind, arr, idx, op, val
         self.guards, self.qvars, self.par, self.seq, self.fn, self.extra = tuple(guards), tuple(qvars), par, seq, fn, extra
+        self.phase, self.level = 0, "serial"   # level: serial | loop (worksharing iteration) | thread (every thread) | single
+        self.outer = 0                          # value of the fresh-variable counter when the enclosing parallel region was entered
+        self.par_extra = ()                     # further collapsed loop variables of the worksharing construct
 
     def __repr__(self):
         return "%s %s[%s] %s %s | q=%s g=%s" % (self.kind, self.arr.name, tm.show(self.idx, 80), self.op or "", tm.show(self.val, 80) if isinstance(self.val, T) else "",
@@ -120,9 +123,20 @@ def as_int(v):
 
 
 class CSym(object):
-    def __init__(self, tus, contracts=None):
+    def __init__(self, tus, contracts=None, footprint=False):
         self.tus = tus if isinstance(tus, list) else [tus]
         self.contracts = contracts or {}      # function name -> python callable(sym, args) replacing the body (callee contract)
+        # footprint mode (C10): only the read / write *sets* matter.  Values of double locations are never forwarded (a read of a location
+        # written earlier yields an unconstrained real), loop-carried real scalars with a non-additive update are havocked.
+        self.footprint = footprint
+        self.private_names = set()            # scalars / pointers declared inside a parallel region or named in private-like clauses
+        self.in_single = 0
+        self.phase = 0                        # barrier phase counter (explicit barriers, end of omp for / single, region boundaries)
+        self.team = None                      # (tid, nthreads) of the current parallel region
+        self.region_start = 0
+        self.par_extra = []
+        self.collapse_pending = 0
+        self.max_threads = None
         self.events = []
         self.guards = []
         self.qvars = []
@@ -165,7 +179,22 @@ class CSym(object):
         if self.dry:
             return
         self.seq += 1
-        self.events.append(Ev(kind, ptr.arr, ptr.off, op, val, self.guards, self.qvars, self.par, self.seq, self.fn_stack[-1] if self.fn_stack else "?", extra))
+        par, qv, gd, level = self.par, self.qvars, self.guards, "serial"
+        if self.par is not None:
+            level = "loop"
+        elif self.in_parallel and self.in_single:
+            level = "single"
+        elif self.in_parallel and self.team is not None:
+            # code of a parallel region outside any worksharing construct: executed by every thread of the team
+            tid, nth = self.team
+            par, level = tid, "thread"
+            qv = [(tid, tm.ZERO, nth, tm.ONE)] + list(self.qvars)
+            gd = [tm.mk_le(tm.ZERO, tid), tm.mk_lt(tid, nth)] + list(self.guards)
+        e = Ev(kind, ptr.arr, ptr.off, op, val, gd, qv, par, self.seq, self.fn_stack[-1] if self.fn_stack else "?", extra)
+        e.phase, e.level = self.phase, level
+        e.outer = self.region_start if self.in_parallel else 0
+        e.par_extra = tuple(self.par_extra)
+        self.events.append(e)
 
     # ------------------------------------------------------------------ entry
     def run(self, fname, args):
@@ -219,6 +248,10 @@ class CSym(object):
                 continue
             name, ty = d["name"], d["type"]["qualType"]
             inner = d.get("inner", [])
+            if self.in_parallel:
+                self.private_names.add(name)
+            else:
+                self.private_names.discard(name)
             if ty.endswith("]"):
                 # local array: double buf[N]
                 base, _, dim = ty.partition("[")
@@ -227,7 +260,7 @@ class CSym(object):
                 size = 1
                 for x in dims:
                     size *= x
-                arr = Arr("%s.%s" % (self.fn_stack[-1], name), "double" if "double" in base else "int", tm.const(size), private=True, origin="local")
+                arr = Arr("%s.%s" % (self.fn_stack[-1], name), "double" if "double" in base else "int", tm.const(size), private=self.in_parallel > 0, origin="local")
                 env[name] = Ptr(arr)
                 if inner and inner[0].get("kind") == "InitListExpr":
                     for i, e in enumerate(inner[0].get("inner", [])):
@@ -365,22 +398,53 @@ class CSym(object):
         raise CUnsupported("omp directive without a statement")
 
     def _omp_clauses(self, n):
-        out = {}
-        for c in n.get("inner", []):
-            k = c.get("kind", "")
-            if k.startswith("OMP") and k.endswith("Clause"):
-                names = [x.get("referencedDecl", {}).get("name") for x in _walk(c) if x.get("kind") == "DeclRefExpr"]
-                out[k] = names
+        """Clauses of a directive, parsed from the pragma text recovered by the front end (clang's JSON dump does not name clause kinds)."""
+        import re
+        text = n.get("ompText", "") or ""
+        out = {"text": text}
+        if "pragma" not in text or "omp" not in text:
+            # a pragma produced by a macro expansion: the text of the expansion line carries no clause information
+            out["unknown"] = True
+            return out
+        for key, name in (("OMPPrivateClause", "private"), ("OMPFirstprivateClause", "firstprivate"), ("OMPLastprivateClause", "lastprivate"), ("OMPSharedClause", "shared")):
+            for m in re.finditer(r"\b%s\s*\(([^)]*)\)" % name, text):
+                out.setdefault(key, []).extend(x.strip() for x in m.group(1).split(",") if x.strip())
+        for m in re.finditer(r"\breduction\s*\(\s*([^:]+):([^)]*)\)", text):
+            out.setdefault("OMPReductionClause", []).extend(x.strip() for x in m.group(2).split(",") if x.strip())
+        m = re.search(r"\bcollapse\s*\(\s*(\d+)\s*\)", text)
+        if m:
+            out["collapse"] = int(m.group(1))
+        if re.search(r"\bnowait\b", text):
+            out["nowait"] = True
         return out
+
+    def _enter_region(self, cl):
+        if self.in_parallel:
+            raise CUnsupported("nested parallel regions")
+        self.in_parallel += 1
+        self.phase += 1
+        self.team = (fresh("tid"), fresh("nthreads"))
+        self.region_start = _FRESH[0] + 1
+        self.thread_id, self.nthreads = self.team
+        self.side.append(("assume", tm.mk_le(tm.ONE, self.team[1]), (), (), self.fn_stack[-1]))
+        for k in ("OMPPrivateClause", "OMPFirstprivateClause", "OMPReductionClause", "OMPLastprivateClause"):
+            for nm in cl.get(k, []):
+                self.private_names.add(nm)
+
+    def _leave_region(self):
+        self.in_parallel -= 1
+        self.phase += 1
+        self.team = None
+        self.thread_id = self.nthreads = None
 
     def s_OMPParallelDirective(self, n, env, tu):
         cl = self._omp_clauses(n)
-        self.in_parallel += 1
+        self._enter_region(cl)
         before = set(env)
         try:
             self.exec(self._omp_stmt(n), env, tu)
         finally:
-            self.in_parallel -= 1
+            self._leave_region()
         # variables declared inside the region are private and die with it
         for k in list(env):
             if k not in before:
@@ -391,31 +455,56 @@ class CSym(object):
         st = self._omp_stmt(n)
         if st.get("kind") != "ForStmt":
             raise CUnsupported("omp for on a non-for statement")
-        self.exec_for(st, env, tu, parallel=True, clauses=cl)
+        added = [nm for k in ("OMPPrivateClause", "OMPFirstprivateClause", "OMPReductionClause", "OMPLastprivateClause") for nm in cl.get(k, []) if nm not in self.private_names]
+        self.private_names.update(added)
+        try:
+            self.exec_for(st, env, tu, parallel=True, clauses=cl)
+        finally:
+            self.private_names.difference_update(added)
+        if not cl.get("nowait"):
+            self.phase += 1     # implicit barrier at the end of the worksharing loop
 
     def s_OMPParallelForDirective(self, n, env, tu):
         cl = self._omp_clauses(n)
-        self.in_parallel += 1
+        self._enter_region(cl)
         try:
             st = self._omp_stmt(n)
             self.exec_for(st, env, tu, parallel=True, clauses=cl)
         finally:
-            self.in_parallel -= 1
+            self._leave_region()
 
     def s_OMPBarrierDirective(self, n, env, tu):
-        pass
+        self.phase += 1
 
     def s_OMPCriticalDirective(self, n, env, tu):
-        self.exec(self._omp_stmt(n), env, tu)
+        self.in_single += 1
+        try:
+            self.exec(self._omp_stmt(n), env, tu)
+        finally:
+            self.in_single -= 1
 
     def s_OMPAtomicDirective(self, n, env, tu):
-        self.exec(self._omp_stmt(n), env, tu)
+        self.in_single += 1
+        try:
+            self.exec(self._omp_stmt(n), env, tu)
+        finally:
+            self.in_single -= 1
 
     def s_OMPSingleDirective(self, n, env, tu):
-        self.exec(self._omp_stmt(n), env, tu)
+        self.in_single += 1
+        try:
+            self.exec(self._omp_stmt(n), env, tu)
+        finally:
+            self.in_single -= 1
+        if not self._omp_clauses(n).get("nowait"):
+            self.phase += 1     # implicit barrier at the end of single
 
     def s_OMPMasterDirective(self, n, env, tu):
-        self.exec(self._omp_stmt(n), env, tu)
+        self.in_single += 1
+        try:
+            self.exec(self._omp_stmt(n), env, tu)
+        finally:
+            self.in_single -= 1
 
     def s_ForStmt(self, n, env, tu):
         self.exec_for(n, env, tu, parallel=False, clauses={})
@@ -435,8 +524,14 @@ class CSym(object):
             raise CUnsupported("loop condition lhs")
         var = lhs["referencedDecl"]["name"]
         bound = self.rvalue(c["inner"][1], env, tu)
-        # increment
+        # increment; `v++, w++` : the first operand drives the loop, the others are executed at the end of every iteration
         i = _strip(inc)
+        tail = []
+        while i.get("kind") == "BinaryOperator" and i.get("opcode") == ",":
+            tail.insert(0, i["inner"][1])
+            i = _strip(i["inner"][0])
+        if tail:
+            body = {"kind": "CompoundStmt", "inner": [body] + tail}
         step = None
         if i.get("kind") == "UnaryOperator" and i.get("opcode") in ("++", "--"):
             step = 1 if i["opcode"] == "++" else -1
@@ -519,6 +614,10 @@ class CSym(object):
             k = fresh(var + "_k")
             rng.append(tm.mk_eq(v, lo_t + k * step_t))
             rng.append(tm.mk_le(tm.ZERO, k))
+        # collapse(n): decided on entry (before the dry pass runs the nested loops)
+        collapse_here = (not parallel) and self.par is not None and self.collapse_pending > 0 and not self.dry
+        pending_after = (self.collapse_pending - 1) if collapse_here else 0
+        self.collapse_pending = 0
         carried = sorted(x for x in self._assigned_names(body) if x in env and x != var)
         # ---- pass A (dry): increments of the carried scalars
         entry = {}
@@ -552,6 +651,12 @@ class CSym(object):
             del self.guards[len(self.guards) - len(rng):]
         forms = {}      # name -> (entry value at iteration v, value after the loop)
         niter = _niter(lo_t, hi_t, step)
+        if niter.op == "ite" or any(u.op == "ite" for u in tm.subterms(niter).values()):
+            # max(hi - lo, 0) with an undetermined sign: name it, and record its definition as an assumption usable by every obligation
+            nv = fresh("niter")
+            d_ = hi_t - lo_t
+            self.side.append(("assume", tm.mk_and(tm.mk_le(tm.ZERO, nv), tm.mk_le(d_, nv), tm.mk_or(tm.mk_eq(nv, tm.ZERO), tm.mk_eq(nv, d_))), tuple(self.guards), tuple(self.qvars), self.fn_stack[-1]))
+            niter = nv
         for name in carried:
             e = entry[name]
             out = envA.get(name)
@@ -569,12 +674,19 @@ class CSym(object):
                 forms[name] = ("temp", None, None)     # overwritten every iteration, not read before
                 continue
             delta = tm.mk_add(outv, tm.mk_neg(e))
+            is_real = not isinstance(cur, Ptr) and not _is_int_term(tm.lift(cur))
             try:
                 dn = self.nf.nf(delta)
                 delta_s = self.nf.rf_to_term(dn)
             except NFError:
+                if self.footprint and is_real:
+                    forms[name] = ("havoc", fresh(name + "@any", "R"), fresh(name + "@out", "R"))
+                    continue
                 raise CUnsupported("loop-carried update of %s is not additive" % name)
             if any(x is e for x in tm.subterms(delta_s).values()):
+                if self.footprint and is_real:
+                    forms[name] = ("havoc", fresh(name + "@any", "R"), fresh(name + "@out", "R"))
+                    continue
                 raise CUnsupported("loop-carried update of %s is not additive (increment depends on the value)" % name)
             others = [entry[o] for o in carried if entry.get(o) is not None and o != name]
             if any(x in others for x in tm.subterms(delta_s).values()):
@@ -603,10 +715,17 @@ class CSym(object):
                 envB[name] = at_v
         envB[var] = v
         old_par = self.par
+        collapsed = False
         if parallel:
             if self.par is not None:
                 raise CUnsupported("nested worksharing loops")
             self.par = v
+            self.collapse_pending = int(clauses.get("collapse", 1)) - 1
+        elif collapse_here:
+            # a loop collapsed into the enclosing worksharing loop: its variable is distributed over the threads as well
+            self.collapse_pending = pending_after
+            self.par_extra.append(v)
+            collapsed = True
         self.qvars.append(q)
         self.guards.extend(rng)
         red_clause = set(clauses.get("OMPReductionClause", []))
@@ -619,11 +738,19 @@ class CSym(object):
             self.qvars.pop()
             del self.guards[len(self.guards) - len(rng):]
             self.par = old_par
+            if collapsed:
+                self.par_extra.pop()
+            if parallel:
+                self.collapse_pending = 0
         # scalars written in a parallel loop that live outside the region must be private or reductions
         if parallel:
             for name in carried:
-                if forms.get(name, ("",))[0] == "red" and name not in red_clause and not self._is_private(name):
+                if name in red_clause or self._is_private(name):
+                    continue
+                if forms.get(name, ("",))[0] == "red":
                     self.side.append(("shared-scalar-reduction", name, (), (), self.fn_stack[-1]))
+                elif name in forms:
+                    self.side.append(("shared-scalar-write", name, (), (), self.fn_stack[-1]))
         for name, (kind, at_v, after) in forms.items():
             cur = env[name]
             if kind == "temp":
@@ -635,7 +762,7 @@ class CSym(object):
         env[var] = hi_t
 
     def _is_private(self, name):
-        return False
+        return name in self.private_names
 
     # ------------------------------------------------------------------ expressions
     def truth(self, v):
@@ -943,6 +1070,9 @@ class CSym(object):
 
     def assign(self, lv, v, env):
         if lv[0] == "var":
+            if self.in_parallel and not self.in_single and not self.dry and self.par is None and not self._is_private(lv[1]):
+                # executed by every thread of the team on a variable that lives outside the region
+                self.side.append(("shared-scalar-write", lv[1], (), (), self.fn_stack[-1]))
             env[lv[1]] = v
         elif lv[0] == "field":
             lv[1].fields[lv[2]] = v
@@ -951,6 +1081,8 @@ class CSym(object):
 
     def read(self, p):
         arr = p.arr
+        if isinstance(arr, StructArr):
+            return arr.element(self, p.off)
         if arr.kind == "ptr":
             # array of pointers (double **da): element k is its own array
             k = as_int(p.off)
@@ -958,6 +1090,9 @@ class CSym(object):
             sub = arr.extra_subarrays.setdefault(key, Arr("%s[%s]" % (arr.name, tm.show(tm.lift(p.off), 30)), arr.elem_kind, arr.elem_extent, origin="param"))
             return Ptr(sub)
         # store forwarding from writes of the same generic iteration / earlier completed loops
+        if self.footprint and arr.kind != "int":
+            self.emit("r", p)
+            return fresh("any", "R") if any(e.kind == "w" and e.arr is arr for e in self.events) else tm.mk_fn("rd:" + arr.name, p.off)
         fw = self._forward(p)
         if fw is not None:
             return fw
@@ -1031,20 +1166,26 @@ class CSym(object):
         if name in ("malloc", "calloc", "fftw_malloc", "fftw_alloc_real", "fftw_alloc_complex"):
             size = args[0] if name != "calloc" else self.arith("*", args[0], args[1])
             self.n_malloc += 1
-            arr = Arr("%s.malloc%d" % (self.fn_stack[-1], self.n_malloc), "raw", None, private=self.in_parallel > 0, origin="malloc")
+            arr = Arr("%s.malloc%d" % (self.fn_stack[-1], self.n_malloc), "raw", None, private=self.in_parallel > 0 and not self.in_single, origin="malloc")
             arr.bytes = size
             arr.zeroed = name == "calloc"
             return Ptr(arr)
         if name in MATH:
             return MATH[name](*[a for a in args])
         if name == "omp_get_thread_num":
-            if self.thread_id is None:
-                self.thread_id = fresh("tid")
-            return self.thread_id
-        if name in ("omp_get_num_threads", "omp_get_max_threads"):
-            if self.nthreads is None:
-                self.nthreads = fresh("nthreads")
-            return self.nthreads
+            if self.team is None:
+                return 0                      # outside a parallel region
+            return self.team[0]
+        if name == "omp_get_num_threads":
+            if self.team is None:
+                return 1
+            return self.team[1]
+        if name == "omp_get_max_threads":
+            # an upper bound of the team size of a later region, not the team size itself
+            if self.max_threads is None:
+                self.max_threads = fresh("maxthreads")
+                self.side.append(("assume", tm.mk_le(tm.ONE, self.max_threads), (), (), self.fn_stack[-1]))
+            return self.max_threads
         if name == "dgemm_":
             return self.dgemm(args)
         tu2, f = self.find_function(name)
@@ -1113,7 +1254,28 @@ class Undef(object):
 
 
 class StructArr(Arr):
-    pass
+    """Array of structs (atc_atom *atc_convs): element i has integer fields  <name>.<field>(i)  and pointer fields that are windows
+    <name>.<field>[ base_<field>(i) + k ]  of one flat array per field (blocks of different elements are not assumed disjoint)."""
+
+    def __init__(self, name, fields):
+        Arr.__init__(self, name, "struct")
+        self.sfields = fields     # [(field name, C type)]
+        self.flat = {}
+
+    def element(self, sym, off):
+        vals = {}
+        off = tm.lift(off)
+        for fname, fty in self.sfields:
+            t = fty.replace("const ", "").strip()
+            if t.endswith("*"):
+                base = t[:-1].strip()
+                arr = self.flat.setdefault(fname, Arr("%s.%s" % (self.name, fname), "int" if is_int_type(base) else "double"))
+                vals[fname] = Ptr(arr, tm.mk_fi("%s.%s@base" % (self.name, fname), off))
+            elif is_int_type(t):
+                vals[fname] = tm.mk_fi("%s.%s" % (self.name, fname), off)
+            elif is_real_type(t):
+                vals[fname] = tm.mk_fn("rd:%s.%s" % (self.name, fname), off)
+        return Struct(self.name + "[]", vals)
 
 
 def _sizeof(ty):
@@ -1173,7 +1335,9 @@ def _m1(name):
     return f
 
 
-MATH = {n: _m1(n) for n in ("exp", "log", "sqrt", "fabs", "erf", "sin", "cos", "tanh", "floor", "ceil", "tgamma", "atan", "lgamma", "cbrt", "expm1", "log1p")}
+MATH = {n: _m1(n) for n in ("exp", "log", "sqrt", "fabs", "erf", "erfc", "sin", "cos", "tanh", "floor", "ceil", "tgamma", "atan", "lgamma", "cbrt", "expm1", "log1p", "sinh", "cosh", "acos", "asin")}
+MATH["fmax"] = lambda a, b: tm.mk_max(tm.lift(as_int(a)), tm.lift(as_int(b)))
+MATH["fmin"] = lambda a, b: tm.mk_min(tm.lift(as_int(a)), tm.lift(as_int(b)))
 MATH["pow"] = lambda a, b: tm.mk_pow(tm.lift(as_int(a)), tm.lift(as_int(b)))
 MATH["atan"] = lambda x: (tm.PI / 4) if as_int(x) == 1 else tm.mk_fn("atan", tm.lift(x))
 MATH["abs"] = lambda x: abs(x) if isinstance(as_int(x), int) else tm.mk_fn("abs", tm.lift(x))
